@@ -124,6 +124,16 @@ class HeadingCorr(Corr):
             for s1, s2 in ((1, 1), (1, -1), (-1, 1), (-1, -1)):
                 out.append({"kind": "pair", "k1": k1, "k2": k2, "s1": s1, "s2": s2, "e": 7, "t": [10.0, -4.0, 1.0], "pos": [1.0, 2.0, 0.0]})
         ks = list(range(-(N - 1), N + 1))
+        # neighbouring headings (1 or 2 grid steps apart, nowhere near +-pi in the ego frame) under an ego yaw that puts the estimate's MAP yaw at pi /
+        # next to -pi, so that the pair lies across the +-pi cut in the map rendering only
+        for k1 in ks[::2]:
+            for dk in (1, -2):
+                k2 = k1 + dk
+                if not -(N - 1) <= k2 <= N:
+                    continue
+                e = wrap_k(N - k1) if dk > 0 else wrap_k(-(N - 1) - k1)
+                out.append({"kind": "pair", "k1": k1, "k2": k2, "s1": rng.choice((1, -1)), "s2": rng.choice((1, -1)), "e": e,
+                            "t": [rng.randint(-800, 800) / 8.0, rng.randint(-800, 800) / 8.0, 0.5], "pos": [rng.randint(-400, 400) / 8.0, 3.0, 0.0]})
         reps = 1 if tier == "quick" else 6
         for _ in range(reps):
             for k1 in ks:
@@ -229,7 +239,8 @@ class HeadingCorr(Corr):
         return case["kind"] == "ap" or case["k1"] != case["k2"]
 
     def distribution(self, cases, obs):
-        d = {"pairs": 0, "ap": 0, "negative_yaw_est": 0, "wrap_pairs": 0, "opposite": 0, "equal": 0, "negative_sign": 0}
+        d = {"pairs": 0, "ap": 0, "negative_yaw_est": 0, "wrap_pairs": 0, "opposite": 0, "equal": 0, "negative_sign": 0,
+             "pairs_straddling_the_pi_cut_in_the_map_frame_only": 0, "of_those_at_most_2_grid_steps_apart": 0}
         for c in cases:
             if c["kind"] == "ap":
                 d["ap"] += 1
@@ -240,6 +251,9 @@ class HeadingCorr(Corr):
             d["opposite"] += dist_k(c["k1"], c["k2"]) == N
             d["equal"] += c["k1"] == c["k2"]
             d["negative_sign"] += (c["s1"] < 0) + (c["s2"] < 0)
+            st = abs(c["k1"] - c["k2"]) <= N < abs(wrap_k(c["k1"] + c["e"]) - wrap_k(c["k2"] + c["e"]))
+            d["pairs_straddling_the_pi_cut_in_the_map_frame_only"] += st
+            d["of_those_at_most_2_grid_steps_apart"] += st and dist_k(c["k1"], c["k2"]) <= 2
         return d
 
 
@@ -249,25 +263,28 @@ def circ_diff(a, b):
     return min(x, 2 * math.pi - x)
 
 
-def check_pair(obs, y1, y2, d, tol_w, tol_a, what):
+def check_pair(obs, y1, y2, d, tol_w, tol_a, what, tol_w_map=None, tol_a_map=None):
     """Direct statement of C09 for one physical pair with true yaws y1 (estimate), y2 (ground truth) and
-    true minimal difference d; tol_w for weights (unit: fraction of pi), tol_a for angles (rad)."""
+    true minimal difference d; tol_w for weights (unit: fraction of pi), tol_a for angles (rad); tol_w_map / tol_a_map (default: the same)
+    for every quantity read off the MAP rendering (a tilted ego pose perturbs the map-frame yaws)."""
+    tol_w_map = tol_w if tol_w_map is None else tol_w_map
+    tol_a_map = tol_a if tol_a_map is None else tol_a_map
     want = 1.0 - d / math.pi
     if abs(obs["w_ego"] - want) > tol_w:
         return f"APH weight {obs['w_ego']} != 1 - d/pi = {want} in the ego frame ({what})"
-    if abs(obs["w_ego"] - obs["w_ego_swapped"]) > tol_w or abs(obs["w_map"] - obs["w_map_swapped"]) > tol_w:
+    if abs(obs["w_ego"] - obs["w_ego_swapped"]) > tol_w or abs(obs["w_map"] - obs["w_map_swapped"]) > tol_w_map:
         return f"APH weight is not symmetric: {obs['w_ego']} vs {obs['w_ego_swapped']} (map {obs['w_map']} vs {obs['w_map_swapped']}) ({what})"
-    if abs(obs["w_ego"] - obs["w_ego_flip"]) > tol_w or abs(obs["w_map"] - obs["w_map_flip"]) > tol_w:
+    if abs(obs["w_ego"] - obs["w_ego_flip"]) > tol_w or abs(obs["w_map"] - obs["w_map_flip"]) > tol_w_map:
         return f"APH weight depends on the quaternion sign: {obs['w_ego']} vs {obs['w_ego_flip']} (map {obs['w_map']} vs {obs['w_map_flip']}) ({what})"
-    if "w_ego_flipgt" in obs and (abs(obs["w_ego"] - obs["w_ego_flipgt"]) > tol_w or abs(obs["w_map"] - obs["w_map_flipgt"]) > tol_w):
+    if "w_ego_flipgt" in obs and (abs(obs["w_ego"] - obs["w_ego_flipgt"]) > tol_w or abs(obs["w_map"] - obs["w_map_flipgt"]) > tol_w_map):
         return (f"APH weight depends on the sign of the ground truth's quaternion: {obs['w_ego']} vs {obs['w_ego_flipgt']} "
                 f"(map {obs['w_map']} vs {obs['w_map_flipgt']}) ({what})")
-    if abs(obs["w_map"] - obs["w_ego"]) > 2 * tol_w or abs(obs["w_map"] - want) > 2 * tol_w:
+    if abs(obs["w_map"] - obs["w_ego"]) > 2 * tol_w_map or abs(obs["w_map"] - want) > 2 * tol_w_map:
         return f"APH weight depends on the frame: ego {obs['w_ego']}, map {obs['w_map']}, 1 - d/pi = {want} ({what})"
     for w in (obs["w_ego"], obs["w_map"]):
         if not 0.0 <= w <= 1.0:
             return f"APH weight {w} outside [0, 1] ({what})"
-    if circ_diff(obs["hb_est"], obs["hb_est_map"]) > 2 * tol_a or circ_diff(obs["hb_gt"], obs["hb_gt_map"]) > 2 * tol_a:
+    if circ_diff(obs["hb_est"], obs["hb_est_map"]) > 2 * tol_a_map or circ_diff(obs["hb_gt"], obs["hb_gt_map"]) > 2 * tol_a_map:
         return f"BEV heading depends on the frame: estimate {obs['hb_est']} vs {obs['hb_est_map']}, ground truth {obs['hb_gt']} vs {obs['hb_gt_map']} ({what})"
     # signed error: wrap(yaw_gt - yaw_est)
     true_err = math.atan2(math.sin(y2 - y1), math.cos(y2 - y1))
@@ -276,7 +293,7 @@ def check_pair(obs, y1, y2, d, tol_w, tol_a, what):
         if k not in obs:
             continue
         e = obs[k]
-        tol = tol_a * (2 if "map" in k else 1)
+        tol = 2 * tol_a_map if "map" in k else tol_a
         if abs(e) > math.pi + 1e-12:
             return f"yaw error {e} outside [-pi, pi] ({k}; {what})"
         if abs(abs(e) - d) > tol:
@@ -318,9 +335,65 @@ class TiltCorr(Corr):
                 elif u < 0.55:     # a yaw next to the +-pi seam of atan2, the other one across the seam or anywhere
                     c["y1"] = rng.choice((1, -1)) * (math.pi - 10 ** rng.uniform(-6, -1.7))
                     c["y2"] = rng.choice((-c["y1"], -math.copysign(math.pi - 10 ** rng.uniform(-6, -1.7), c["y1"]), rng.uniform(-math.pi, math.pi)))
+                elif u < 0.8:
+                    # the seam of the MAP frame under a rotated ego: the ego yaw is chosen so that the estimate's MAP yaw is +-(pi - d1) and the
+                    # ground truth lies across the cut, by a little (a turn of d1 + d2) or by a lot; in the ego frame the pair is nowhere near +-pi
+                    d1, side = 10 ** rng.uniform(-6, -1.7), rng.choice((1, -1))
+                    ey = side * (math.pi - d1) - c["y1"]
+                    c["ey"] = math.atan2(math.sin(ey), math.cos(ey))
+                    turn = rng.choice((d1 + 10 ** rng.uniform(-6, -1.7), rng.uniform(0.05, 3.0)))
+                    y2 = c["y1"] + side * turn
+                    c["y2"] = math.atan2(math.sin(y2), math.cos(y2))
+                    c["map_seam"] = True
+        # ACCUMULATION: ONE TPMetricsAph instance and ONE TransformDict (entry updated in place) serve 3-5 frames of a moving ego in which a tracked
+        # pair (persistent uuids) turns: every frame's weight / heading / error must be that frame's (oracle only, no tilt)
+        for _ in range(40 if tier == "quick" else 400):
+            steps = []
+            y1, y2 = rng.uniform(-math.pi, math.pi), rng.uniform(-math.pi, math.pi)
+            ey = rng.uniform(-math.pi, math.pi)
+            for k in range(rng.randint(3, 5)):
+                steps.append({"y1": y1, "y2": y2, "s1": rng.choice((1, -1)), "s2": rng.choice((1, -1)), "ey": ey,
+                              "t": [rng.uniform(-100, 100), rng.uniform(-100, 100), rng.uniform(-2, 2)],
+                              "pos": [rng.uniform(-50, 50), rng.uniform(-50, 50), rng.uniform(-1, 1)]})
+                wrap = lambda x: math.atan2(math.sin(x), math.cos(x))  # noqa: E731
+                y1, y2 = wrap(y1 + rng.uniform(-0.6, 0.6)), wrap(y2 + rng.uniform(-0.6, 0.6))
+                ey = wrap(ey + rng.choice((rng.uniform(-0.5, 0.5), rng.uniform(-math.pi, math.pi))))
+            out.append({"kind": "seq", "steps": steps})
         return out
 
+    def _run_seq(self, case):
+        from perception_eval.common.schema import FrameID
+        from perception_eval.evaluation.metrics.detection.tp_metrics import TPMetricsAph
+        from perception_eval.evaluation.result.object_result import DynamicObjectWithPerceptionResult as R
+
+        aph, reg, out = TPMetricsAph(), None, []
+        for st in case["steps"]:
+            ego2map, fresh = _scene(None, st["t"], _qz(st["ey"]))
+            if reg is None:
+                reg = fresh
+            else:
+                reg[(FrameID.BASE_LINK, FrameID.MAP)] = ego2map            # the live registry follows the ego
+            est, gt, est_m, gt_m = _pair_objects(st["pos"], _qz(st["y1"]), _qz(st["y2"]), st["s1"], st["s2"], ego2map, uuids=("t0", "g0"))
+            r, rm = R(est, gt), R(est_m, gt_m, transforms=reg)
+            out.append({"w_ego": float(aph.get_value(r)), "w_map": float(aph.get_value(rm)),
+                        "err_ego": float(r.heading_error[2]), "err_map": float(rm.heading_error[2]),
+                        "hb_est": float(est.get_heading_bev()), "hb_gt": float(gt.get_heading_bev()),
+                        "hb_est_map": float(est_m.get_heading_bev(reg)), "hb_gt_map": float(gt_m.get_heading_bev(reg))})
+        return {"steps": out}
+
+    def _oracle_seq(self, case, obs):
+        for k, (st, o) in enumerate(zip(case["steps"], obs["steps"])):
+            d = circ_diff(st["y1"], st["y2"])
+            what = f"frame {k} of {len(case['steps'])} through one TPMetricsAph instance and one registry: yaws {st['y1']!r}, {st['y2']!r}, ego yaw {st['ey']!r}"
+            full = dict(o, w_ego_swapped=o["w_ego"], w_ego_flip=o["w_ego"], w_map_swapped=o["w_map"], w_map_flip=o["w_map"])
+            m = check_pair(full, st["y1"], st["y2"], d, TOL, TOL, what)
+            if m:
+                return m
+        return None
+
     def run_impl(self, case):
+        if case.get("kind") == "seq":
+            return self._run_seq(case)
         q1 = _quat_zyx(case["y1"], case["rp1"][1], case["rp1"][0])
         q2 = _quat_zyx(case["y2"], case["rp2"][1], case["rp2"][0])
         ego2map, tr = _scene(None, case["t"], _quat_zyx(case["ey"], case["erp"][1], case["erp"][0]))
@@ -332,6 +405,8 @@ class TiltCorr(Corr):
         return "true"
 
     def oracle(self, case, obs):
+        if case.get("kind") == "seq":
+            return self._oracle_seq(case, obs)
         y1, y2 = case["y1"], case["y2"]
         d = circ_diff(y1, y2)
         if case.get("untilted"):
@@ -342,9 +417,21 @@ class TiltCorr(Corr):
         return True
 
     def distribution(self, cases, obs):
+        seq = [c for c in cases if c.get("kind") == "seq"]
+        cases = [c for c in cases if c.get("kind") != "seq"]
+
+        def wrap(x):
+            return math.atan2(math.sin(x), math.cos(x))
+
+        def map_straddle(c):
+            return abs(c["y1"] - c["y2"]) <= math.pi < abs(wrap(c["y1"] + c["ey"]) - wrap(c["y2"] + c["ey"]))
         return {"tilted": sum(1 for c in cases if not c.get("untilted")), "untilted_continuous_yaws_exact_tolerance": sum(1 for c in cases if c.get("untilted")),
                 "untilted_yaw_within_0.02rad_of_the_seam": sum(1 for c in cases if c.get("untilted") and math.pi - abs(c["y1"]) < 0.021),
-                "untilted_nearly_opposite_headings": sum(1 for c in cases if c.get("untilted") and 0 < math.pi - circ_diff(c["y1"], c["y2"]) < 0.021)}
+                "untilted_nearly_opposite_headings": sum(1 for c in cases if c.get("untilted") and 0 < math.pi - circ_diff(c["y1"], c["y2"]) < 0.021),
+                "untilted_map_yaw_within_0.02rad_of_the_seam_under_a_rotated_ego": sum(1 for c in cases if c.get("map_seam")),
+                "untilted_pairs_straddling_the_pi_cut_in_the_map_frame_only": sum(1 for c in cases if c.get("untilted") and map_straddle(c)),
+                "of_those_turned_by_less_than_0.05rad": sum(1 for c in cases if c.get("untilted") and map_straddle(c) and circ_diff(c["y1"], c["y2"]) < 0.05),
+                "sequences_through_one_TPMetricsAph_and_one_registry": len(seq), "frames_in_those_sequences": sum(len(c["steps"]) for c in seq)}
 
 
 class C09(Prop):
@@ -367,7 +454,11 @@ class C09(Prop):
     rule = ("heading: regression pairs (negative yaw, wrap) x 4 sign combinations, every (k1,k2) of the 48x48 grid with random signs / ego "
             "yaw / translation, Ap with 1-8 results in both frames; tilted: random yaws with roll/pitch <= 0.05 (oracle only), 20% of them with NO tilt "
             "(continuous off-grid yaws; 30% of those nearly opposite, d = pi - delta with delta log-uniform in [1e-6, 0.02]; 25% with a yaw that close to the +-pi seam) judged within 1e-9; the weight and the yaw error are also observed with the "
-            "ground truth's quaternion negated alone and, in the map frame, with the estimate's negated (oracle only); non-trivial = different yaws")
+            "ground truth's quaternion negated alone and, in the map frame, with the estimate's negated (oracle only); non-trivial = different yaws; "
+            "heading: 46 neighbouring pairs (1 / 2 grid steps apart) under the ego yaw that puts them across the +-pi cut of the MAP frame only; tilted: a quarter of the untilted cases "
+            "choose the ego yaw so that the estimate's MAP yaw is within [1e-6, 0.02] of +-pi and the ground truth lies across the cut (by as little, or by a lot); 40 (quick) / 400 sequences of 3-5 frames "
+            "through ONE TPMetricsAph instance and ONE TransformDict whose entry is updated in place while the ego moves and a tracked pair (persistent uuids) turns: every frame's "
+            "weight, yaw error and BEV heading (ego and map) is judged (oracle only)")
     assumptions = ["orientations are yaw-only in the model (roll/pitch stream is oracle-only)",
                    "pyquaternion yaw extraction and Quaternion(matrix=...) validated numerically, not proved"]
     not_proved = ["yaw_pitch_roll[0] = atan2(...) returns the yaw of the quaternion", "orientations with roll/pitch (tolerance-tested only)",
